@@ -692,7 +692,8 @@ class FieldsJson(FieldValueBase):
                 for attribute_name, validator_class in cls._get_attr_to_validator_type_dict(attr_fields_dict).items()
                 if validator_class.get_canonical_name() in raw_values
             })
-        except (TypeError, OverflowError) as e:  # required member is missing, has a wrong JSON type or is out of range
+        except (TypeError, ValueError, OverflowError) as e:
+            # required member is missing, has a wrong JSON type, is not a number (NaN, "x") or is out of range
             six.raise_from(InvalidValue(six.ensure_text(bytes(parsable), 'ascii', 'replace'), cls, 'value'), e)
 
         return value, len(parsable)
